@@ -1,18 +1,18 @@
 CONSTANTS
-  Users = {"", "u", "w"}
-  Epochs = {1, 2, 3, 4}
-  Versions = {1, 2, 3, 4}
-  Values = {"p", "q"}
-  NodeNames = {"n1", "n2"}
-  AzksEpochs = {1, 2, 3, 4}
+  Users = {"u"}
+  Epochs = {1, 2}
+  Versions = {1, 2}
+  Values = {"p"}
+  NodeNames = {"n1"}
+  AzksEpochs = {1, 2}
   HasCache = TRUE
   CachePutBeforeDbWrite = FALSE
   BulkVersionsUsesEpoch = FALSE
   FillPolicy = "if_same_generation"
-  Export = TRUE
-  MaxSteps = 100
+  Export = FALSE
+  MaxSteps = 3
   WithReads = TRUE
-  SplitReads = FALSE
+  SplitReads = TRUE
 INIT MCInit
 NEXT MCNext
 VIEW View
